@@ -636,7 +636,9 @@ func (self PathNode) marshal(p *thrift.BinaryProtocol, opts *Options) error {
 	if self.IsError() {
 		return self.Node
 	}
-	if len(self.Next) == 0 {
+	// NOTICE: a complex-type node loaded with opts.NotScanParentNode has no data itself (l == 0),
+	// if it has no children either, it must be written as an EMPTY container below, not as nothing
+	if len(self.Next) == 0 && !(self.Node.l == 0 && self.Node.v != nil && self.Node.t.IsComplex()) {
 		p.Buf = append(p.Buf, self.raw()...)
 		return nil
 	}
